@@ -71,7 +71,7 @@ theorem markK_hasContent (K : Bytes → Bool) (v : NVar) : (markK K v).hasConten
 
 theorem markK_nested (K : Bytes → Bool) (pol : Nat) (v : NVar) : nestedOf pol (markK K v) = nestedOf pol v := by
   unfold nestedOf
-  rw [markK_content, markK_hasContent]
+  rw [markK_content, markK_hasContent, markK_attrs]
 
 theorem markK_type (K : Bytes → Bool) (v : NVar) :
     (markK K v).type = if K v.name then .invalid else v.type := by
